@@ -31,9 +31,9 @@ Theorem C17_serial_is_single_handle : forall (S C : Type) (step : S -> C -> S) l
 Proof. exact @serial_is_single_handle. Qed.
 
 Theorem C17_concurrent_commits : forall (status : N) (is_pr : N -> bool) (base : db) (s : store) l,
-  db_inv status is_pr base s ->
+  db_inv base s ->
   let s' := cpersist (crun (cstepdb status is_pr) {| cpersist := s; cholder := None |} l) in
-  db_inv status is_pr base s'
+  db_inv base s'
   /\ unsynced s' = unsynced s ++ concat (concat (committed None l)).
 Proof. exact concurrent_commits. Qed.
 
